@@ -5,6 +5,7 @@ package main
 
 import (
 	"fmt"
+	"golang.org/x/tools/go/ssa"
 	"sort"
 	"strings"
 )
@@ -301,4 +302,43 @@ func ruleBasketInvariant(c *Ctx, m *Model) {
 		}
 		c.Check(exact, "C05.INV", "computeBasketBalances#exact", p.Pos(cb.Pos()), "basket balances are summed per basket id with exact operations only")
 	}
+	// every decimal operation of the invariant and of the same-package code it reaches is total on
+	// reachable magnitudes and exact: parse, exact add, compare, scale constructor, integer extraction
+	// through big.Int. A narrowing extraction (Dec.Int64) fails above 2^63-1 and the invariant reports
+	// every conversion error as "broken"; a truncating one (SdkIntTrim) would hide a fractional
+	// difference. The rounding multiply is finding F7 and is reported by C05.EXACT, not here.
+	allowed := map[string]bool{"NewDecFromString": true, "NewNonNegativeDecFromString": true, "NewPositiveDecFromString": true, "NewDecFinite": true, "NewDecFromInt64": true,
+		"Dec.Add": true, "Add": true, "SafeAddBalance": true, "Dec.Cmp": true, "Dec.Equal": true, "Dec.IsZero": true, "Dec.IsNegative": true, "Dec.IsPositive": true,
+		"Dec.BigInt": true, "Dec.String": true, "Dec.MulExact": true, "Dec.Mul": true}
+	seen := map[*ssa.Function]bool{fn: true}
+	work := []*ssa.Function{fn}
+	nOps := 0
+	for len(work) > 0 {
+		f := work[0]
+		work = work[1:]
+		for _, af := range f.AnonFuncs {
+			if !seen[af] {
+				seen[af] = true
+				work = append(work, af)
+			}
+		}
+		for _, ci := range callsIn(f) {
+			sc := ci.Common().StaticCallee()
+			if sc == nil {
+				continue
+			}
+			if fnPkgPath(sc) == fnPkgPath(fn) && len(sc.Blocks) > 0 && !seen[sc] {
+				seen[sc] = true
+				work = append(work, sc)
+			}
+			if !strings.HasSuffix(fnPkgPath(sc), mathPkgSuffix) {
+				continue
+			}
+			nOps++
+			if n := mathFnName(sc); !allowed[n] {
+				c.Violate("C05.INV", funcKey(f)+"#"+n, p.Pos(ci.Pos()), "the registered basket-supply invariant uses "+n+", which is partial or lossy on reachable magnitudes (narrowing / truncating / rounding): a conversion error is reported as a broken invariant although the basket is exactly backed, or a difference is hidden", nil)
+			}
+		}
+	}
+	c.Check(nOps > 0, "C05.INV", "SupplyInvariant#operations", p.Pos(fn.Pos()), fmt.Sprintf("all %d decimal operations reachable from the invariant are total and exact (parse, exact add, compare, scale, big-integer extraction)", nOps))
 }
